@@ -75,9 +75,10 @@ def verify(mid):
         try:
             e = dict(env, PYTHONPATH=wt)
             d = demo_file(mid)
-            rc, out, dt = sh([PY, d], cwd=base, env=e, timeout=600)
-            res['demo_rc_%s' % ('patched' if patched else 'clean')] = rc
-            res['demo_tail_%s' % ('patched' if patched else 'clean')] = out.strip().splitlines()[-3:]
+            if d is not None:
+                rc, out, dt = sh([PY, d], cwd=base, env=e, timeout=600)
+                res['demo_rc_%s' % ('patched' if patched else 'clean')] = rc
+                res['demo_tail_%s' % ('patched' if patched else 'clean')] = out.strip().splitlines()[-3:]
             if patched:
                 rc, out, dt = sh([PY, '-m', 'pytest', '-q', '-p', 'no:cacheprovider', '--timeout=900',
                                   '--continue-on-collection-errors', '-x'], cwd=wt, env=env, timeout=1800)
@@ -85,7 +86,7 @@ def verify(mid):
                 res['tests_tail'] = out.strip().splitlines()[-1:]
         finally:
             drop(base)
-    res['ok'] = (res['demo_rc_clean'] == 0 and res['demo_rc_patched'] != 0 and res['tests_rc'] == 0)
+    res['ok'] = (res.get('demo_rc_clean', 0) == 0 and res.get('demo_rc_patched', 1) != 0 and res['tests_rc'] == 0)
     return res
 
 
